@@ -303,3 +303,7 @@ def ssn2_post(ctx, st, result):
 
 UNITS.append(Unit("C14", "jsonargparse._typehints:subclass_spec_as_namespace", ssn2_setup, ssn2_post, no_exc, label="dotted-sub-options",
                   trusted=["NestedArg(key, val) unpacks as (key, val)", "Namespace(mapping) / Namespace(**kw) build a namespace with those items"]))
+
+
+from contracts.any_units import adapt_classes_any_unit, is_subclass_spec_unit, parse_argv_item_unit  # noqa: E402
+UNITS += [adapt_classes_any_unit("C14"), is_subclass_spec_unit("C14"), parse_argv_item_unit("C14")]
